@@ -719,6 +719,96 @@ pub fn run_fixed(eng: &mut Eng, time_only: bool) {
     eng.sample(|| "and/or/not: inputs [T,E(1)] times (3, 8); if/if-else: condition F true-input P false-input E(3); expirer: input P age = limit+1".to_string());
 }
 
+/// One getter object feeding several inputs of one combinator (aliasing): the combinator must treat
+/// every slot as an input in its own right (x + x is 2x, not x).
+fn aliased_inputs(eng: &mut Eng) {
+    for cat in [In::P, In::N, In::E(1), In::E(0)] {
+        macro_rules! nary_alias {
+            ($n:expr) => {{
+                const N: usize = $n;
+                let g = rc(Scr::<f32>::new(mk(cat, 5, 3.0f32)));
+                let h = rc(Scr::<f32>::new(mk(In::P, 9, 2.0f32)));
+                // all slots the same object; and the same object around a different one
+                for pattern in 0..2usize {
+                    if pattern == 1 && N < 3 {
+                        continue;
+                    }
+                    let arr = || -> [Reference<dyn Getter<f32, E>>; N] { core::array::from_fn(|i| if pattern == 1 && i == 1 { dyn_getter(&h) } else { dyn_getter(&g) }) };
+                    let copies = if pattern == 1 { N - 1 } else { N };
+                    let case = || format!("arity {}: the same getter ({:?}) in {} slots{}", N, cat, copies, if pattern == 1 { " with another getter (2.0 at time 9) in slot 1" } else { "" });
+                    let fold = |f: fn(f32, f32) -> f32| -> Exp {
+                        match cat {
+                            In::E(k) => Exp::err(k),
+                            In::N => {
+                                if pattern == 1 {
+                                    Exp::some(2.0f32.bits(), vec![9])
+                                } else {
+                                    Exp::none()
+                                }
+                            }
+                            In::P => {
+                                // input order: g, (h,) g, ...
+                                let mut v = 3.0f32;
+                                for i in 1..N {
+                                    v = f(v, if pattern == 1 && i == 1 { 2.0 } else { 3.0 });
+                                }
+                                Exp::some(v.bits(), vec![if pattern == 1 { 9 } else { 5 }])
+                            }
+                        }
+                    };
+                    eng.executions += 3;
+                    eng.states += 1;
+                    eng.transitions += 9;
+                    eng.nontrivial += 1;
+                    let mut j = Judge { eng: &mut *eng, time_only: false };
+                    j.check("sum-aliased-inputs", &case, guard(|| three(&SumStream::new(arr()))), &fold(|a, b| a + b), N);
+                    j.check("product-aliased-inputs", &case, guard(|| three(&ProductStream::new(arr()))), &fold(|a, b| a * b), N);
+                    let exp_latest = match cat {
+                        In::P => {
+                            if pattern == 1 {
+                                Exp::some(2.0f32.bits(), vec![9])
+                            } else {
+                                Exp::some(3.0f32.bits(), vec![5])
+                            }
+                        }
+                        _ => {
+                            if pattern == 1 {
+                                Exp::some(2.0f32.bits(), vec![9])
+                            } else {
+                                Exp::none()
+                            }
+                        }
+                    };
+                    j.check("newest-of-aliased-inputs", &case, guard(|| three(&Latest::new(arr()))), &exp_latest, N);
+                }
+            }};
+        }
+        nary_alias!(2);
+        nary_alias!(3);
+        nary_alias!(4);
+        nary_alias!(5);
+        // two-input forms with both inputs the same object
+        let g = rc(Scr::<f32>::new(mk(cat, 5, 3.0f32)));
+        let case = || format!("both inputs the same getter ({:?})", cat);
+        let two = |f: fn(f32, f32) -> f32| -> Exp {
+            match cat {
+                In::E(k) => Exp::err(k),
+                In::N => Exp::none(),
+                In::P => Exp::some(f(3.0, 3.0).bits(), vec![5]),
+            }
+        };
+        eng.executions += 5;
+        eng.transitions += 15;
+        let mut j = Judge { eng: &mut *eng, time_only: false };
+        j.check("sum2-aliased-inputs", &case, guard(|| three(&Sum2::new(rf(&g), rf(&g)))), &two(|a, b| a + b), 2);
+        j.check("product2-aliased-inputs", &case, guard(|| three(&Product2::new(rf(&g), rf(&g)))), &two(|a, b| a * b), 2);
+        j.check("difference-aliased-inputs", &case, guard(|| three(&DifferenceStream::new(rf(&g), rf(&g)))), &two(|a, b| a - b), 2);
+        j.check("quotient-aliased-inputs", &case, guard(|| three(&QuotientStream::new(rf(&g), rf(&g)))), &two(|a, b| a / b), 2);
+        j.check("exponent-aliased-inputs", &case, guard(|| three(&ExponentStream::new(rf(&g), rf(&g)))), &two(|a, b| crate::refmodels::backend_powf(a, b)), 2);
+    }
+    eng.sample(|| "SumStream over [x, x, x] with x = 3 at time 5: 9 at time 5".to_string());
+}
+
 pub fn run(ctx: &Ctx) -> Vec<Eng> {
     let (mw, mn) = if ctx.thorough { (6, 8) } else { (5, 5) };
     let mut e1 = Eng::new(
@@ -733,6 +823,8 @@ pub fn run(ctx: &Ctx) -> Vec<Eng> {
         "all category assignments x 7 timestamp pairs",
     );
     run_fixed(&mut e2, false);
+    aliased_inputs(&mut e2);
+    e2.bounds.push_str("; plus aliasing: one getter object (present / absent / erroring) in every slot of the n-ary streams (arities 2..5), the same around a different getter, and as both inputs of the two-input arithmetic forms");
     vec![e1, e2]
 }
 
